@@ -936,7 +936,7 @@ class C10(Property):
         return out
 
     def cases(self, rng: random.Random, tier: str, deep: bool) -> Iterator[Dict[str, Any]]:
-        count = 16000 if deep else 1800
+        count = 16000 if deep else 1500
         generated = (self.gen_layout(rng, tier) for _ in range(count))
         yield from self._precomputed(generated)
         yield from self.prepeptide_cases(rng, deep)
